@@ -85,6 +85,19 @@ CLAIMED["C20"] = ("exploration",
  "Seeded search over (class: generated under drawn size/features/layout, corpus, re-encoded corpus, minimal; raw values: the value read, hand-built values, 0-3 edits through public fields, 19 golden values with sentinels; reader/writer schedules; 0-1 fault each side). T0: read consumes exactly the class and equals the skeleton, to_bytes(read(b)) == b, length() == bytes written, read(to_bytes(v)) == v, outputs parse to the same model. T1: identical value / bytes. T2 reader: Err, or Ok re-encoding to the delivered bytes (a tolerant Ok on bytes that are no longer well-formed is counted); T2 writer: Err with a prefix, Ok complete, second write equal. Sampling, not proof.",
  "trusted: c20_skel (independent skeleton walker), c20_golden (hand-written bytes), refclass, SimReader/SimWriter; an in-process allocation guard answers oversized length words with an I/O error (the crate pre-allocates u32 lengths)",
  "DESIGN.md section 4 C20")
+# fourth session: what was added to the simulated environment per property (appended to the technique text)
+EXTRA4 = {
+ "C01": " Fourth session: the class starts at a non-zero offset of the stream (head bytes, by preference a copy of the class itself); attrition (70-260 failing reads on one thread, then the undamaged bytes).",
+ "C02": " Fourth session: the simulated sink has a real gather write (write_vectored may stop inside any slice).",
+ "C03": " Fourth session: the written text is also stored on the simulated disk as a regular file / symbolic link / pipe (metadata size 0) in a directory whose name and path are drawn, and read through the path-taking read_file.",
+ "C04": " Fourth session: one line of a diff text one tab too deep - a refusal, or an Ok that still says what every other line says.",
+ "C05": " Fourth session: the mappings directory is named / reached in a drawn way (hidden, space, non-ASCII, named like a file, dir/., through .., through a symbolic link), the root file can be a pipe, lookup-key collisions on either half of a split name, unknown names composed of existing halves.",
+ "C07": " Fourth session: a caller-written BRemapper laid over the mapping-based one (the remapper is a trait the caller may implement).",
+ "C12": " Fourth session: the directories handed to enigma_dir::write / read are named and reached in a drawn way (see C05).",
+ "C13": " Fourth session: a failed write of the merged jar (put_to_file onto /dev/full, or hook H3 into a sink with little room) precedes the write to memory.",
+ "C15": " Fourth session: the jars as files of the simulated directory behind dukebox FileJar, optionally under paths that held other jars during an earlier call.",
+ "C16": " Fourth session: seed input max-labels (a method with a label at every bytecode offset 0..=65535).",
+}
 PENDING = {}  # id -> reason (claimed in DESIGN.md but the check is not built yet)
 
 def main():
@@ -102,7 +115,7 @@ def main():
                 "engine": "sim",
                 "level_claimed": {"category": cat, "text": text, "design_ref": ref},
                 "level_note": note,
-                "technique": tech,
+                "technique": tech + EXTRA4.get(pid, ""),
             })
         elif pid in NA:
             na.append({"property_id": pid, "reason": NA[pid]})
